@@ -21,7 +21,7 @@ LEVEL_TEXT = ('Every sequence of up to 4 (quick) / 5 (thorough) line kinds (ok, 
               '8-, 16- and 17-bit counter widths, and every sequence of up to 3 files over {clean, warn-only, failing, fatal} are assembled; exit '
               'status, code-file existence, diagnostics on the selected channel and the summary counts are compared with the status model.'
               ' File sequences also cover a genuine branch-distance failure, a source needing a repass, a macro using SHIFT, and -o lists naming none / the first / all outputs (each code file must hold its own source). Branch-distance programs of the manual (BEQ over n size-changing instructions, n around the limit) are checked with a model-free consistency oracle: reported = counted = exit status = code file.'
-              ' EXPECT/ENDEXPECT blocks (announced numbers x provoked statements, fatal ones included) and every output file made uncreatable (its name is a directory) are enumerated too: status, code file and counts must follow the model, no crash, no hang.')
+              ' EXPECT/ENDEXPECT blocks (announced numbers x provoked statements, fatal ones included) and every output file made uncreatable (its name is a directory) are enumerated too: status, code file and counts must follow the model, no crash, no hang. A diagnostic raised while a pass is being set up (-cpu with target arguments the target does not know) counts like any other.')
 LEVEL_NOTE = ('Trusted: the status model written from the manual (exit codes 0/2/3, -Werror, -maxerrors). Only four error kinds are used; the '
               'counting path (WrErrorString) is shared by all messages.')
 RULE = ('(a) line-kind histories x option sets with <=k deviations; (b) N identical lines, N in boundary set; (c) file sequences. '
